@@ -468,7 +468,7 @@ pub fn run(args: &Args) -> Report {
         ks: vec![0, 1],
         env: 1,
         fault: 0,
-        total_wall: Duration::from_secs(if thorough { 1500 } else { 50 }),
+        total_wall: Duration::from_secs(if thorough { 1500 } else { 100 }),
         max_execs_per_case: 5_000,
         required_witnesses: W_TIMEOUT | W_SURVIVED | W_PING_SEEN | W_DISABLED | W_CLAMPED | W_RESOLVED_AFTER_TIMEOUT | W_LATE_PONG | W_HUNG | W_PEER_PINGS | W_LATE_POLL,
         adaptive: thorough,
